@@ -4,7 +4,7 @@
 # moments, restarted on the same cache files, and checked for: exit status 0, exit latency, no
 # panic / fatal error, loadable cache files, and that data for every template acknowledged before
 # the signal is decoded immediately after the restart (published bytes identical to before).
-import json, os, random, shutil, signal, socket, subprocess, tempfile, threading, time, urllib.request
+import json, os, random, re, shutil, signal, socket, subprocess, tempfile, threading, time, urllib.request
 import vf
 from props.flowgen import Gen, load_model
 from props.common import hx
@@ -66,8 +66,9 @@ def free_port(tcp=False):
 
 
 class Collector:
-    def __init__(self, d, sink_port):
+    def __init__(self, d, sink_port, stats_format="restful"):
         self.d = d
+        self.stats_format = stats_format
         self.ports = {k: free_port(tcp=(k == "stats")) for k in ("ipfix", "nf9", "nf5", "sflow", "stats")}
         # the configuration directory is NOT the working directory, and the cache files are named relatively (they are the working
         # directory's, for the load at start-up and for the dump at shutdown alike)
@@ -94,7 +95,7 @@ class Collector:
     def start1(self):
         args = [os.path.join(vf.HARNESS, "bin", "vflow"), "-config", os.path.join(self.conf, "vflow.conf"), "-mqueue", "rawSocket", "-mqueue-conf", "mq.conf",
                 "-ipfix-port", str(self.ports["ipfix"]), "-netflow9-port", str(self.ports["nf9"]), "-netflow5-port", str(self.ports["nf5"]),
-                "-sflow-port", str(self.ports["sflow"]), "-stats-http-port", str(self.ports["stats"]), "-stats-format", "restful",
+                "-sflow-port", str(self.ports["sflow"]), "-stats-http-port", str(self.ports["stats"]), "-stats-format", self.stats_format,
                 "-ipfix-rpc-enabled=false", "-dynamic-workers=false", "-pid-file", os.path.join(self.d, "pid"),
                 "-ipfix-tpl-cache-file", "ipfix.cache", "-netflow9-tpl-cache-file", "nf9.cache",
                 "-ipfix-workers", "4", "-netflow9-workers", "4", "-netflow5-workers", "2", "-sflow-workers", "2"]
@@ -103,7 +104,7 @@ class Collector:
         t0 = time.time()
         while time.time() - t0 < 8:
             try:
-                urllib.request.urlopen("http://127.0.0.1:%d/flow" % self.ports["stats"], timeout=0.3).read()
+                urllib.request.urlopen("http://127.0.0.1:%d/%s" % (self.ports["stats"], "flow" if self.stats_format == "restful" else "metrics"), timeout=0.3).read()
                 return True
             except Exception:
                 if self.p.poll() is not None:
@@ -119,6 +120,22 @@ class Collector:
             if os.path.exists(os.path.join(base, name)):
                 return os.path.join(base, name)
         return os.path.join(self.d, name)
+
+    def metrics(self):
+        """the Prometheus page: metric name -> value"""
+        try:
+            txt = urllib.request.urlopen("http://127.0.0.1:%d/metrics" % self.ports["stats"], timeout=1).read().decode()
+        except Exception:
+            return None
+        out = {}
+        for l in txt.split("\n"):
+            if l.startswith("vflow_") and " " in l:
+                k, v = l.rsplit(" ", 1)
+                try:
+                    out[k] = float(v)
+                except ValueError:
+                    pass
+        return out
 
     def stats(self):
         try:
@@ -204,6 +221,20 @@ class P:
 
                 for cyc in range(cycles):
                     n_cycles += 1
+                    if cyc > 0 and cyc % 2 == 1:
+                        # time passes: the templates in the saved files were announced long ago (exporters with a sparse refresh and a
+                        # collector that had been up for hours or months): the Timestamp of every entry is moved back
+                        for f in ("ipfix.cache", "nf9.cache"):
+                            pth = col.cache_path(f)
+                            try:
+                                b = open(pth, "rb").read()
+                                k = [0]
+                                def back(m, k=k):
+                                    k[0] += 1
+                                    return b'"Timestamp":%d' % (int(time.time()) - [7200, 400 * 86400, 2000][k[0] % 3])
+                                open(pth, "wb").write(re.sub(rb'"Timestamp":\d+', back, b))
+                            except OSError:
+                                pass
                     if not col.start():
                         _, _, err = col.stop(signal.SIGKILL) if col.p and col.p.poll() is None else (0, 0, open(col.err.name).read())
                         viol.append({"cases": [], "verdict": "collector did not start in cycle %d: %s" % (cyc, err[-400:])}); break
@@ -241,14 +272,17 @@ class P:
                     else:
                         # 2b. new exporters announce templates and send data; a template is acknowledged once its data is published
                         for k in range(rng.choice([2, 4])):
-                            proto = rng.choice(["ipfix", "nf9"])
+                            # (the first life always has an IPFIX template with a variable-length field and a NetFlow v9 OPTIONS template:
+                            # whatever the seed, both kinds go through a save and a load)
+                            proto = ["ipfix", "nf9"][k % 2] if cyc == 0 else rng.choice(["ipfix", "nf9"])
+                            force_opts = True if (cyc == 0 and k == 1) else None
                             g = gens[proto]
                             ip = "127.0.0.%d" % rng.randrange(2, 250)
                             while True:
                                 # (several fields: the one-field re-announcements of a later shrink cycle then really make the saved file shorter)
                                 # (IPFIX: every other template has variable-length fields: whatever a decoder derives from a template when it
                                 # is announced must also be there when the template comes back from the file)
-                                t, o = g.rand_tpl(tid=rng.choice([256, 257, 300, 999]), allow_var=(proto == "ipfix" and k % 2 == 0), nfields=rng.choice([6, 10, 25]))
+                                t, o = g.rand_tpl(tid=rng.choice([256, 257, 300, 999]), opts=force_opts, allow_var=(proto == "ipfix" and k % 2 == 0), nfields=rng.choice([6, 10, 25]))
                                 if g.min_rec_len(t) > 4:
                                     break
                             if proto == "ipfix" and k % 2 == 0 and all(ln != 65535 for _, _, ln in t.specs()):
